@@ -272,6 +272,11 @@ type TaskMaster struct {
 	mu      sync.RWMutex
 	wg      sync.WaitGroup
 
+	// lifecycleMu serializes starting, stopping and deleting tasks.
+	// mu is not held while a stopped task drains, the nodes of that task may need it:
+	// a loopback node writes into the task master's own stream, whose fork takes mu.RLock.
+	lifecycleMu sync.Mutex
+
 	TestCloser io.Closer
 }
 
@@ -367,11 +372,21 @@ func (tm *TaskMaster) Open() (err error) {
 }
 
 func (tm *TaskMaster) StopTasks() {
-	tm.mu.Lock()
-	defer tm.mu.Unlock()
-	for _, et := range tm.tasks {
-		_ = tm.stopTask(et.Task.ID)
+	tm.lifecycleMu.Lock()
+	defer tm.lifecycleMu.Unlock()
+	for _, id := range tm.taskIDs() {
+		_ = tm.stopTask(id)
 	}
+}
+
+func (tm *TaskMaster) taskIDs() []string {
+	tm.mu.RLock()
+	defer tm.mu.RUnlock()
+	ids := make([]string, 0, len(tm.tasks))
+	for id := range tm.tasks {
+		ids = append(ids, id)
+	}
+	return ids
 }
 
 func (tm *TaskMaster) Close() error {
@@ -385,11 +400,13 @@ func (tm *TaskMaster) Close() error {
 
 	tm.Drain()
 
+	tm.lifecycleMu.Lock()
+	defer tm.lifecycleMu.Unlock()
 	tm.mu.Lock()
-	defer tm.mu.Unlock()
 	tm.closed = true
-	for _, et := range tm.tasks {
-		_ = tm.stopTask(et.Task.ID)
+	tm.mu.Unlock()
+	for _, id := range tm.taskIDs() {
+		_ = tm.stopTask(id)
 	}
 	tm.diag.TaskMasterClosed()
 	if tm.TestCloser != nil {
@@ -528,6 +545,8 @@ func (tm *TaskMaster) CreateTICKScope() *stateful.Scope {
 }
 
 func (tm *TaskMaster) StartTask(t *Task) (*ExecutingTask, error) {
+	tm.lifecycleMu.Lock()
+	defer tm.lifecycleMu.Unlock()
 	tm.mu.Lock()
 	defer tm.mu.Unlock()
 	if tm.closed {
@@ -593,14 +612,14 @@ func (tm *TaskMaster) BatchCollectors(id string) []BatchCollector {
 }
 
 func (tm *TaskMaster) StopTask(id string) error {
-	tm.mu.Lock()
-	defer tm.mu.Unlock()
+	tm.lifecycleMu.Lock()
+	defer tm.lifecycleMu.Unlock()
 	return tm.stopTask(id)
 }
 
 func (tm *TaskMaster) DeleteTask(id string) error {
-	tm.mu.Lock()
-	defer tm.mu.Unlock()
+	tm.lifecycleMu.Lock()
+	defer tm.lifecycleMu.Unlock()
 	if err := tm.stopTask(id); err != nil {
 		return err
 	}
@@ -608,11 +627,11 @@ func (tm *TaskMaster) DeleteTask(id string) error {
 	return nil
 }
 
-// internal stopTask function. The caller must have acquired
-// the lock in order to call this function
+// internal stopTask function. The caller must hold lifecycleMu and must not hold mu.
 func (tm *TaskMaster) stopTask(id string) (err error) {
-	if et, ok := tm.tasks[id]; ok {
-
+	tm.mu.Lock()
+	et, ok := tm.tasks[id]
+	if ok {
 		delete(tm.tasks, id)
 
 		switch et.Task.Type {
@@ -621,18 +640,22 @@ func (tm *TaskMaster) stopTask(id string) (err error) {
 		case BatchTask:
 			delete(tm.batches, id)
 		}
-		err = et.stop()
-		if err != nil {
-			tm.diag.StoppedTaskWithError(id, err)
-		} else {
-			tm.diag.StoppedTask(id)
-		}
+	}
+	tm.mu.Unlock()
+	if !ok {
+		return nil
+	}
+	// Wait for the task to drain without holding mu.
+	err = et.stop()
+	if err != nil {
+		tm.diag.StoppedTaskWithError(id, err)
+	} else {
+		tm.diag.StoppedTask(id)
 	}
 	return
 }
 
-// internal deleteTask function. The caller must have acquired
-// the lock in order to call this function
+// internal deleteTask function. The caller must hold lifecycleMu and must not hold mu.
 func (tm *TaskMaster) deleteTask(id string) {
 	tm.hooksMu.Lock()
 	hooks := tm.deleteHooks[id]
